@@ -24,25 +24,43 @@ func jobsFor(prop, tier string) []Job {
 	thorough := tier == "thorough"
 	var js []Job
 	switch prop {
+	case "C01":
+		mk := func(name string, p map[string]int, eager bool, sched int) Job {
+			return Job{Name: name, Pkg: "", Fn: "VH_C01", Inits: true, FilterSummary: true, Samples: 4, Params: p, Eager: eager, Sched: sched > 0, MaxDev: sched,
+				Bounds:  map[string]any{"transactions": p["N"], "universe": "KEYS keys of [a, a@, a!, b, a@1] starting at K0", "ops_per_txn": "1 (2 when OPS2=1)", "values": "1 symbolic byte, empty value, or delete", "MemtableByteThreshold": "symbolic 1..120", "DataBlockByteThreshold": "symbolic 1..40", "ImmutableBuffer": "0..IBMAX", "L0TargetNum": "1..L0MAX", "LevelRatio": "1..RATIOMAX", "background_policy": map[bool]string{true: "eager (runs to quiescence at every sync point of the API goroutine)", false: "lazy (runs when the API goroutine blocks or drains)"}[eager], "preemption_bound": sched, "params": p},
+				Assumes: []string{aFilter, aS2, aFS, aClock, "skiplist level coins fixed (levels are C17's subject)", "utils.Hash executed exactly on the concrete keys"},
+				Outside: []string{"longer histories; values longer than one byte (C11 covers sizes); I/O errors; keys outside the 5-key adversarial universe"}}
+		}
+		js = []Job{
+			mk("c01-n3-drain", params("N", 3, "KEYS", 2, "DRAIN", 1), false, 0),
+			mk("c01-n3-lazy", params("N", 3, "KEYS", 2, "DRAIN", 0, "K0", 1), false, 0),
+		}
+		if thorough {
+			js = append(js, mk("c01-n4-drain-ops2", params("N", 4, "KEYS", 3, "DRAIN", 1, "OPS2", 1, "IBMAX", 2, "L0MAX", 2, "RATIOMAX", 2), false, 0),
+				mk("c01-n3-eager", params("N", 3, "KEYS", 2, "DRAIN", 0, "K0", 3), true, 0),
+				mk("c01-n3-sched2", params("N", 3, "KEYS", 2, "DRAIN", 0), false, 2))
+		}
 	case "C09":
 		mk := func(name string, p map[string]int) Job {
 			return Job{Name: name, Pkg: "", Fn: "VH_C09", Inits: true, FilterSummary: true, Samples: 4, Params: p,
-				Bounds:  map[string]any{"rounds_of_flush_and_compact": p["R"], "tables_per_round": p["T"], "entries_per_table": p["E"], "l0TargetNum": p["L0T"], "ratio": p["RATIO"], "watermark": "symbolic 0..MAXTS set through the real readMark", "user_key_bytes": "1 (first KL2 entries: 2), all byte values", "timestamps": "0..MAXTS", "tombstones": "symbolic", "block_size": "symbolic 0..64", "query": "symbolic key, read timestamp >= watermark", "params": p},
+				Bounds:  map[string]any{"rounds_of_flush_and_compact": p["R"], "tables_per_round": p["T"], "entries_per_table": p["E"], "l0TargetNum": p["L0T"], "ratio": p["RATIO"], "watermark": "symbolic 0..MAXTS set through the real readMark", "user_key_bytes": "1 (first KL2 entries: 2), all byte values", "timestamps": "0..MAXTS", "tombstones": "symbolic", "block_size": "BLK (0 = one entry per block)", "query": "symbolic key, read timestamp >= watermark", "params": p},
 				Assumes: []string{aFilter, aS2, aFS, "entries of one flushed table are sorted and distinct; a (key, version) pair occurs once over all tables"},
 				Outside: []string{"more tables/entries/rounds than the listed configurations (3x3 is out of reach)", "user keys longer than 2 bytes"}}
 		}
 		js = []Job{
-			mk("c09-1r-2x2", params("R", 1, "T", 2, "E", 2, "L0T", 1, "RATIO", 2)),
-			mk("c09-2r-2x1-l1merge", params("R", 2, "T", 2, "E", 1, "L0T", 1, "RATIO", 2)),
-			mk("c09-2r-2x1-cascade-recover", params("R", 2, "T", 2, "E", 1, "L0T", 1, "RATIO", 1, "RECOVER", 1, "WM", 0)),
+			mk("c09-1r-2+1", params("R", 1, "T", 2, "ES", 21, "L0T", 1, "RATIO", 2)),
+			mk("c09-1r-1+2-blk64", params("R", 1, "T", 2, "ES", 12, "L0T", 1, "RATIO", 2, "BLK", 64)),
+			mk("c09-2r-cascade-recover", params("R", 2, "T", 1, "E", 2, "E2", 1, "L0T", 0, "RATIO", 1, "RECOVER", 1)),
 		}
 		if thorough {
 			js = append(js,
-				mk("c09-1r-3x2", params("R", 1, "T", 3, "E", 2, "L0T", 2, "RATIO", 2)),
-				mk("c09-1r-2x3", params("R", 1, "T", 2, "E", 3, "L0T", 1, "RATIO", 2)),
-				mk("c09-1r-2x2-k2", params("R", 1, "T", 2, "E", 2, "L0T", 1, "RATIO", 2, "KL2", 2, "QKL", 2)),
-				mk("c09-3r-2x1-cascade", params("R", 3, "T", 2, "E", 1, "L0T", 1, "RATIO", 1)),
-				mk("c09-2r-2x2-l1merge", params("R", 2, "T", 2, "E", 2, "L0T", 1, "RATIO", 2, "WM", 0)),
+				mk("c09-2r-2x1-l1merge", params("R", 2, "T", 2, "E", 1, "L0T", 1, "RATIO", 2, "WM", 0)),
+				mk("c09-2r-2x1-cascade-recover", params("R", 2, "T", 2, "E", 1, "L0T", 1, "RATIO", 1, "RECOVER", 1, "WM", 0, "MAXTS", 3)),
+				mk("c09-1r-2x2", params("R", 1, "T", 2, "E", 2, "L0T", 1, "RATIO", 2)),
+				mk("c09-1r-3x1", params("R", 1, "T", 3, "E", 1, "L0T", 2, "RATIO", 2)),
+				mk("c09-1r-2+1-k2", params("R", 1, "T", 2, "ES", 21, "L0T", 1, "RATIO", 2, "KL2", 2, "QKL", 2)),
+				mk("c09-2r-2x1-l1merge-wm", params("R", 2, "T", 2, "E", 1, "L0T", 1, "RATIO", 2)),
+				mk("c09-1r-2+1-ts99", params("R", 1, "T", 2, "ES", 21, "L0T", 1, "RATIO", 2, "MAXTS", 99)),
 			)
 		}
 	case "C10":
